@@ -62,7 +62,7 @@ Inductive sop : Type :=
       object (sim.model = new) -- followed by clean('all' | 'computed').  The code reads
       self.model afresh for every solve, so both variants act alike on the tags. *)
 
-Inductive err := EAttr | EFile | EType.
+Inductive err := EAttr | EFile | EType | EInj.   (* EInj: an exception injected at a seam (Model/SimFault.v) *)
 Inductive ret := RNone | RVal (t : tag) | RBadType | RNew (k : nat) | RErr (e : err).
 Record obs := mkObs { o_ret : ret; o_trace : list solve }.
 
@@ -469,7 +469,7 @@ Definition enc_ret (r : ret) : list Z :=
   match r with
   | RNone => [0; 0; 0; 0] | RVal t => 1 :: enc_tag t | RBadType => [2; 0; 0; 0]
   | RNew k => [3; zn k; 0; 0]
-  | RErr e => [4; match e with EAttr => 1 | EFile => 2 | EType => 3 end; 0; 0]
+  | RErr e => [4; match e with EAttr => 1 | EFile => 2 | EType => 3 | EInj => 7 end; 0; 0]
   end.
 Definition enc_obs (o : obs) : list Z := enc_ret (o_ret o) ++ flat_map enc_solve (o_trace o).
 
